@@ -38,6 +38,15 @@ type MapV struct {
 	shared bool
 }
 type TupleV []Val
+
+// IterV: state of a range loop over a map (keys in sorted order) or a concrete string.
+type IterV struct {
+	m     *MapV
+	keys  []string
+	str   string
+	isStr bool
+	pos   int
+}
 type BuilderV struct{ b []*Term }
 
 // SymElem: address of element of a slice/array at a symbolic index
